@@ -16,12 +16,12 @@ TEXT = {
  "C08": ("Per-endpoint building blocks only: PRF / TLS1.3 label structure, record round trips, full-size fragment acceptance, in-order reassembly. Nothing about two live endpoints.", "ideal PRF; handshake drivers not encodable"),
  "C11": ("Record protection of TLCP/TLS1.2/TLS1.3: round trip, MAC/AEAD input coverage, padding, sequence-number binding, malformed lengths, over ideal CBC/MAC/AEAD layers; seq increment exact.", "ideal CBC table, ideal MAC probe, ideal AEAD; payloads <= 17/11 bytes quick"),
  "C12": ("Decision logic of point/scalar importers at full width with the curve equation as a recording oracle; key-share and private-key container paths.", "curve equation and decompression not verified"),
- "C13": ("Limb layer exact at full width; Jacobian point formulas over a small prime field against the affine group law; scalar-multiplication routes thorough-only. Multiplier / Montgomery reduction not decided.", "small-field transfer argument (polynomial identities of degree <= 12 < 13)"),
- "C14": ("Round trip / dry-run / canonicity of ASN.1 primitives (several exact), OID and SEQUENCE OF capacity, validators, time strings, hex, PEM capacity.", "bounded content sizes; base64 streaming thorough-only"),
+ "C13": ("Limb layer exact at full width; Montgomery reduction step of modp/modn mont_mul exact at full width with the 256x256 multiplier as an oracle; Jacobian point formulas over a small prime field against the affine group law; scalar-multiplication routes thorough-only. The 256-bit multiplier itself is not decided.", "small-field transfer argument (polynomial identities of degree <= 12 < 13); multiplier oracle"),
+ "C14": ("Round trip / dry-run / canonicity of ASN.1 primitives (several exact), OID and SEQUENCE OF capacity, validators, time strings (1970-1980, 1999-2000, 2049-2051 quick; full range thorough), hex, PEM capacity, base64 streaming for every input and text cut point.", "bounded content sizes; base64 streaming with one representative content per length (symbolic contents give no verdict)"),
  "C15": ("CRL lookup = membership; x509_signed_verify acceptance conditions; extension encoder length consistency around DER length boundaries.", "ideal signature verifier; abstract entries"),
- "C16": ("Two control-flow theorems of cms.c (signed-data verification, recipient matching).", "abstract DER parts"),
- "C17": ("SM9 256-bit limb / Fp add-sub layer exact; MAC-then-decrypt control flow. Pairing, tower fields, G1/G2 not decided.", "-"),
- "C18": ("Entropy-driven outputs and fail-closed behaviour for six randomised operations with a symbolic failing draw.", "rand_bytes model; heavy arithmetic opaque"),
+ "C16": ("Three theorems of cms.c: signed-data verification (>= 1 SignerInfo, all verified over H(header || content)), signing side (digest input = DER of the emitted ContentInfo for every content type, SignerInfo i made with signer i's key), recipient matching.", "abstract DER parts; 2 signers, 5-byte content"),
+ "C17": ("SM9 256-bit limb / Fp add-sub layer exact; real Fp2/Fp4/Fp12 and G1/G2 point formulas over small prime fields against their definitions (Fp4, Fp12, G2 over a generic base ring); real sign/verify, KEM, key exchange and key extraction over an ideal bilinear group with random-oracle hashes, incl. retry paths; MAC-then-decrypt control flow. Pairing bilinearity, Frobenius constants, 256-bit multiplier not decided.", "small fields F_5/F_7/F_13; ideal bilinear group of order 13; at most one retry"),
+ "C18": ("Entropy-driven outputs and fail-closed behaviour for six randomised operations with a symbolic failing draw, plus the SM9 operations (sign, KEM, exchange steps 1A/1B) over the ideal bilinear group: ephemeral values are the entropy draws, failure at any draw is reported.", "rand_bytes / rand_range model; heavy arithmetic opaque or ideal"),
  "C19": ("No dumping helper reachable in four secret-handling operations on any path (diagnostic monitor). Handshake drivers (which do print secrets) not covered.", "error_print* macros reduced to no-ops (they print file/line only)"),
  "C20": ("Reduction: inventory of writable statics (auxiliary, syntactic) + operations meeting their specification from arbitrary static state (--nondet-static). Interleavings not explored.", "no schedule exploration"),
 }
